@@ -17,7 +17,7 @@ import orchestrate
 import tlc
 from tagfam import _run_jobs
 
-FAMILY_FILES = ["spec/Main.tla", "spec/MainTrace.tla", "spec/MainTrace.cfg", "spec/MC_Main.cfg", "spec/MC_Main_PerFile.cfg", "spec/MC_Main_thorough.cfg", "spec/Known_Main_StopRace.cfg",
+FAMILY_FILES = ["spec/MainProof.tla", "spec/tlaps_stubs/SequencesExt.tla", "harness/fixfam.py", "spec/Main.tla", "spec/MainTrace.tla", "spec/MainTrace.cfg", "spec/MC_Main.cfg", "spec/MC_Main_PerFile.cfg", "spec/MC_Main_thorough.cfg", "spec/Known_Main_StopRace.cfg",
                 "spec/Mutant_Main_Unordered.cfg", "spec/Mutant_Main_ExitLast.cfg", "harness/batchfam.py", "harness/batchrun.py", "harness/vsg_traced.py", "harness/tagfam.py", "spec/Batch.tla", "spec/BatchTrace.tla", "spec/BatchTrace.cfg", "spec/MC_Batch.cfg",
                 "spec/Mutant_Batch_Leak.cfg"]
 REJ = "entity e is\n  port (a : in std_logic;\nend entity e\n\narchitecture a of e is\nbegin\n  process begin end end end;\n"
@@ -55,6 +55,11 @@ def _collect(tier):
         res = tlc.model_check(module, cfg, workers=8, timeout=1200)
         ok = res.ok if expect is None else ("Invariant %s is violated" % expect) in res.out
         design.append({"module": module, "cfg": cfg, "ok": ok, "states": res.states, "distinct": res.distinct, "expect": expect or "no error", "error": res.error[:300]})
+    # C15_OutputOrder for ANY number of files and jobs: TLAPS proof spec/MainProof.tla (an extra next to the TLC runs)
+    import fixfam
+
+    tp = fixfam.run_tlaps("MainProof", ["Main.tla", "MainProof.tla", "tlaps_stubs/SequencesExt.tla"], {"C15"})
+    design.append({"module": "MainProof", "cfg": "tlapm", "ok": tp["ok"], "states": 0, "distinct": 0, "expect": tp["expect"], "error": tp["error"][:300], "obligations_proved": tp["obligations_proved"]})
     paths = [p for p in corpus.all_vhd() if p.endswith("_test_input.vhd") or "/styles/code_examples/" in p]
     small = [p for p in paths if os.path.getsize(p) < 6000]
     sample = corpus.stratified_sample(small, 10 if q else 40, seed, always=("/styles/code_examples/comments.vhd", "/styles/code_examples/grp_debouncer.vhd"))
